@@ -1093,8 +1093,10 @@ template <class T,int index>
 static FixedArray<T>
 Vec2Array_get(FixedArray<IMATH_NAMESPACE::Vec2<T> > &va)
 {
-    return FixedArray<T>(va.unchecked_index(0).getValue () + index,
-                         va.len(), 2*va.stride(), va.handle(), va.writable());
+    FixedArray<T> r(va.unchecked_direct_index(0).getValue () + index,
+                    va.len(), 2*va.stride(), va.handle(), va.writable());
+    r.shareMaskOf (va);
+    return r;
 }
 
 template <class T>
